@@ -44,16 +44,32 @@ package cluster
 //@   ensures[C20.add.value] s.members[member.ID] == member
 //@   ensures[C20.add.kept] forallS("Str", id, id != member.ID ==> s.members[id] == old(s.members[id]))
 
-// Telling the agent: builds a fresh slice of the members and sends it; trusted
-// not to change the member set (Engine.Send is the boundary to package actor).
+// complete(sl, set): every member of the set occurs in the slice.
+//@ pred complete(sl, set) := forallS("Str", id, has(set.members, id) ==> exists(k, 0 <= k && k < len(sl) && sl[k] == set.members[id]))
+//@ pred provInv(s) := s != nil && msInv(s.members) && s.cluster != nil && engInv(s.cluster.engine)
+
+//@ func (*Cluster).PID()
+//@   props C20
+//@   requires c != nil
+//@   pure
+//@   ensures result == c.agentPID
+
+// Telling the agent: one send of a *Members message listing every current
+// member to the agent's PID (nothing when the agent PID is not set yet).
 //@ func (*SelfManaged).sendMembersToAgent()
-//@   trusted
-//@   modifies
+//@   props C20
+//@   requires provInv(s)
+//@   nopanic[C20.agent.nopanic]
+//@   modifies log, loglen
+//@   ghost at call Send#1 before: assert[C20.agent.told-complete-list] arg0 == s.cluster.engine && arg1 == s.cluster.agentPID && istype(arg2, *Members) && arg2.(*Members) != nil && complete(arg2.(*Members).Members, s.members)
+//@   ensures[C20.agent.told-once] (s.cluster.agentPID == nil ==> loglen == entry(loglen)) && (s.cluster.agentPID != nil ==> loglen == entry(loglen) + 1 && addressedTo(log[entry(loglen)], s.cluster.agentPID)) && logPrefix(entry(loglen))
 
 //@ func (*SelfManaged).removeMember(member)
 //@   props C20
-//@   requires s != nil && msInv(s.members)
+//@   requires provInv(s)
 //@   nopanic[C20.leave.nopanic]
+//@   modifies mapof(s.members.members), log, loglen
+//@   ensures[C20.leave.agent-told] (member != nil && s.cluster.agentPID != nil ==> loglen == entry(loglen) + 1 && addressedTo(log[entry(loglen)], s.cluster.agentPID)) && (member == nil || s.cluster.agentPID == nil ==> loglen == entry(loglen)) && logPrefix(entry(loglen))
 //@   ensures[C20.leave.non-member] (member == nil || !old(has(s.members.members, member.ID))) ==> forallS("Str", id, has(s.members.members, id) == old(has(s.members.members, id)))
 //@   ensures[C20.leave.member] member != nil ==> forallS("Str", id, has(s.members.members, id) == (old(has(s.members.members, id)) && id != member.ID))
 //@   ensures[C20.leave.kept] forallS("Str", id, has(s.members.members, id) ==> s.members.members[id] == old(s.members.members[id]))
@@ -61,7 +77,9 @@ package cluster
 
 //@ func (*SelfManaged).addMembers(members)
 //@   props C20
-//@   requires s != nil && msInv(s.members)
+//@   requires provInv(s)
+//@   modifies mapof(s.members.members), log, loglen
+//@   ensures[C20.add-all.agent-told] (s.cluster.agentPID != nil ==> loglen == entry(loglen) + 1 && addressedTo(log[entry(loglen)], s.cluster.agentPID)) && (s.cluster.agentPID == nil ==> loglen == entry(loglen)) && logPrefix(entry(loglen))
 //@   requires forall(k, 0 <= k && k < len(members) ==> members[k] != nil)
 //@   nopanic[C20.add-all.nopanic]
 //@   ensures[C20.add-all.present] forall(k, 0 <= k && k < len(members) ==> has(s.members.members, members[k].ID))
@@ -69,6 +87,74 @@ package cluster
 //@   ensures[C20.add-all.inv] msInv(s.members)
 //@   loop 1
 //@     invariant rangeindex >= -1 && s.members == old(s.members)
-//@     invariant msInv(s.members)
+//@     invariant msInv(s.members) && provInv(s)
 //@     invariant forall(k, 0 <= k && k <= rangeindex && k < len(members) ==> has(s.members.members, members[k].ID))
 //@     invariant forallS("Str", id, old(has(s.members.members, id)) ==> has(s.members.members, id) && s.members.members[id] == old(s.members.members[id]))
+//@     modifies mapof(s.members.members)
+
+// Slice: every member of the set, each exactly at one position. card/visited
+// count of the map iteration bound the index; pos is a ghost witness
+// (member ID -> position) for "every member occurs in the result".
+//@ func (*MemberSet).Slice()
+//@   props C20 C18
+//@   requires msInv(s)
+//@   modifies
+//@   ghost at entry: pos = arbitrary("(Array Str Int)")
+//@   ghost at storeelem#1: pos = store(pos, member.ID, i)
+//@   ensures[C20.slice.len] len(result) == len(s.members)
+//@   ensures[C20.slice.sound] forall(k, 0 <= k && k < len(result) ==> result[k] != nil && has(s.members, result[k].ID) && s.members[result[k].ID] == result[k])
+//@   ensures[C20.slice.complete] forallS("Str", id, has(s.members, id) ==> exists(k, 0 <= k && k < len(result) && result[k] == s.members[id]))
+//@   ensures fresh(result)
+//@   loop 1
+//@     invariant msInv(s) && i == count1 && 0 <= i && i <= len(members) && len(members) == len(s.members) && members.off == 0 && fresh(members)
+//@     invariant forall(k, 0 <= k && k < i ==> members[k] != nil && has(s.members, members[k].ID) && s.members[members[k].ID] == members[k])
+//@     invariant forallS("Str", id, has(s.members, id) && visited1[id] ==> 0 <= pos[id] && pos[id] < i && members[pos[id]] == s.members[id])
+//@     modifies elements(members)
+
+
+//@ func (*Cluster).Member()
+//@   trusted
+//@   modifies
+//@   ensures result != nil && fresh(result)
+
+//@ func (*SelfManaged).start(c)
+//@   trusted
+//@   modifies heap
+
+//@ func (*SelfManaged).handleMemberPing(c)
+//@   trusted
+//@   modifies heap
+
+//@ func (*Context).SendRepeat(pid, msg, interval)
+//@   trusted
+//@   modifies
+
+// The provider actor. Only the three membership cases are verified (the
+// precondition restricts the message to them); nothing is claimed about the
+// other cases (Started/Stopped/ping: discovery, pinger, shutdown).
+//@ func (*SelfManaged).Receive(c)
+//@   props C20
+//@   requires provInv(s) && c != nil
+//@   requires istype(c.message, *Handshake) || istype(c.message, *Members) || istype(c.message, memberLeave)
+//@   requires istype(c.message, *Handshake) ==> c.message.(*Handshake) != nil && c.message.(*Handshake).Member != nil
+//@   requires istype(c.message, *Members) ==> c.message.(*Members) != nil && forall(k, 0 <= k && k < len(c.message.(*Members).Members) ==> c.message.(*Members).Members[k] != nil)
+//@   modifies mapof(s.members.members), log, loglen
+//@   ghost at entry: gone = nilof("*Member")
+//@   ghost at call GetByHost#1 before: assert[C20.leave.looks-up-reported-address] arg0 == s.members && arg1 == c.message.(memberLeave).ListenAddr
+//@   ghost at call GetByHost#1: gone = result
+//@   ghost at call removeMember#1 before: assert[C20.leave.removes-the-member-found] arg0 == s && arg1 == gone
+//@   ghost at call Send#1 before: assert[C20.handshake.reply-to-sender-with-complete-list] arg0 == s.cluster.engine && arg1 == c.sender && istype(arg2, *Members) && arg2.(*Members) != nil &&
+//@        complete(arg2.(*Members).Members, s.members) && has(s.members.members, c.message.(*Handshake).Member.ID)
+//@   ensures[C20.handshake.adds-peer-keeps-others] istype(old(c.message), *Handshake) ==> has(s.members.members, old(c.message).(*Handshake).Member.ID) &&
+//@        forallS("Str", id, old(has(s.members.members, id)) ==> has(s.members.members, id) && s.members.members[id] == old(s.members.members[id]))
+//@   ensures[C20.handshake.agent-told-then-replied] istype(old(c.message), *Handshake) && c.sender != nil && s.cluster.agentPID != nil ==> loglen == entry(loglen) + 2 && addressedTo(log[entry(loglen)], s.cluster.agentPID) && addressedTo(log[entry(loglen) + 1], c.sender)
+//@   ensures[C20.handshake.replied] istype(old(c.message), *Handshake) && c.sender != nil ==> loglen >= entry(loglen) + 1 && addressedTo(log[loglen - 1], c.sender)
+//@   ensures[C20.members.adds-all-keeps-others] istype(old(c.message), *Members) ==> forall(k, 0 <= k && k < len(old(c.message).(*Members).Members) ==> has(s.members.members, old(c.message).(*Members).Members[k].ID)) &&
+//@        forallS("Str", id, old(has(s.members.members, id)) ==> has(s.members.members, id) && s.members.members[id] == old(s.members.members[id]))
+//@   ensures[C20.members.agent-told] istype(old(c.message), *Members) && s.cluster.agentPID != nil ==> loglen == entry(loglen) + 1 && addressedTo(log[entry(loglen)], s.cluster.agentPID)
+//@   ensures[C20.leave.unknown-address-changes-nothing] istype(old(c.message), memberLeave) && forallS("Str", id, old(has(s.members.members, id)) ==> old(s.members.members[id].Host) != old(c.message).(memberLeave).ListenAddr) ==>
+//@        loglen == entry(loglen) && forallS("Str", id, has(s.members.members, id) == old(has(s.members.members, id)) && (has(s.members.members, id) ==> s.members.members[id] == old(s.members.members[id])))
+//@   ensures[C20.leave.member-with-that-address-removed] istype(old(c.message), memberLeave) && existsS("Str", id, old(has(s.members.members, id)) && old(s.members.members[id].Host) == old(c.message).(memberLeave).ListenAddr) ==>
+//@        gone != nil && old(has(s.members.members, gone.ID)) && gone.Host == old(c.message).(memberLeave).ListenAddr && forallS("Str", id, has(s.members.members, id) == (old(has(s.members.members, id)) && id != gone.ID)) &&
+//@        (s.cluster.agentPID != nil ==> loglen == entry(loglen) + 1 && addressedTo(log[entry(loglen)], s.cluster.agentPID))
+//@   ensures[C20.leave.others-untouched] istype(old(c.message), memberLeave) ==> forallS("Str", id, has(s.members.members, id) ==> s.members.members[id] == old(s.members.members[id])) && msInv(s.members)
